@@ -284,6 +284,7 @@ func (s *Service) Stop(drainTimeout time.Duration, message string) error {
 	}
 
 	slog.Info("Service stopped", "service", s.name)
+	verifPoint("service.stopped", s)
 
 	s.Drain(drainTimeout)
 	slog.Info("Service drained", "service", s.name)
@@ -297,6 +298,7 @@ func (s *Service) Pause(drainTimeout time.Duration, pauseTimeout time.Duration) 
 	}
 
 	slog.Info("Service paused", "service", s.name)
+	verifPoint("service.paused", s)
 
 	s.Drain(drainTimeout)
 	slog.Info("Service drained", "service", s.name)
@@ -408,6 +410,7 @@ func (s *Service) createMiddleware(options ServiceOptions, certManager CertManag
 
 func (s *Service) serviceRequestWithTarget(w http.ResponseWriter, r *http.Request) {
 	LoggingRequestContext(r).Service = s.name
+	verifPoint("service.entry", r, s)
 
 	if s.shouldRedirectToHTTPS(r) {
 		s.redirectToHTTPS(w, r)
@@ -422,6 +425,7 @@ func (s *Service) serviceRequestWithTarget(w http.ResponseWriter, r *http.Reques
 	if s.handlePausedAndStoppedRequests(w, r) {
 		return
 	}
+	verifPoint("service.after-gate", r, s)
 
 	lb := s.loadBalancerForRequest(r)
 	lb.ServeHTTP(w, r)
